@@ -39,6 +39,7 @@ BASE = [
     {"k": "cylindrical", "weights": 3, "base": {"k": "matern", "nu": 2.5}}, {"k": "cylindrical", "weights": 1, "base": {"k": "rbf"}},
     {"k": "spectral_delta", "deltas": 5}, {"k": "spectral_delta", "deltas": 2, "ard": True},
     {"k": "gskl"},
+    {"k": "index", "tasks": 4, "rank": 2}, {"k": "index", "tasks": 3, "rank": 1},
 ]
 LDB = ("rbf", "matern", "rq", "periodic", "cosine", "linear", "poly", "constant")
 COMPOSED = [
@@ -80,6 +81,9 @@ def cases(tier, seed):
                     pb, xb = rnd.choice(BATCH) if rnd.random() < 0.5 else BATCH[0]
                     if spec["k"] in ("additive_structure", "product_structure", "newton_girard", "hamming"):
                         pb, xb = ([], []) if rnd.random() < 0.7 else ([], [2])
+                    if spec["k"] == "index":
+                        d = 1
+                        pb, xb = rnd.choice([([], []), ([], [2]), ([2], [2])])
                     yield {
                         "kernel": spec, "d": d, "n1": npat[0], "n2": npat[1], "rel": npat[2], "pbatch": pb, "xbatch": xb,
                         "path": rnd.choice(PATHS), "regime": rnd.choice(REGIMES), "seed": rnd.randrange(10**6),
@@ -153,6 +157,8 @@ def _build(spec, d, pb):
         return K.SpectralDeltaKernel(num_dims=d, num_deltas=spec["deltas"], batch_shape=bs, **kw)
     if k == "gskl":
         return K.GaussianSymmetrizedKLKernel(batch_shape=bs)
+    if k == "index":
+        return K.IndexKernel(num_tasks=spec["tasks"], rank=spec["rank"], batch_shape=bs)
     if k == "additive_structure":
         return K.AdditiveStructureKernel(util.build_kernel(spec["base"], 1, pb), num_dims=d)
     if k == "product_structure":
@@ -262,6 +268,10 @@ def _run_case(case, ctx):
             return v / v.norm(dim=-1, keepdim=True) * (0.05 + 0.9 * util.rand(g, *xb, n, 1))
 
         x1, x2 = ball(n1), ball(n2)
+    elif spec["k"] == "index":
+        # inputs are task indices
+        x1 = torch.randint(0, spec["tasks"], (*xb, n1, 1), generator=g)
+        x2 = torch.randint(0, spec["tasks"], (*xb, n2, 1), generator=g)
     elif spec["k"] == "gskl":
         x1 = util.randn(g, *xb, n1, 2 * d) * 0.7
         x2 = util.randn(g, *xb, n2, 2 * d) * 0.7
@@ -279,7 +289,7 @@ def _run_case(case, ctx):
     if case["rel"] == "same":
         x2 = x1
     path = case["path"]
-    if spec["k"] in ("hamming", "newton_girard") and path == "xgrad":
+    if spec["k"] in ("hamming", "newton_girard", "index") and path == "xgrad":
         path = "nograd"
     if path == "xgrad":
         x1 = x1.clone().requires_grad_(True)
